@@ -302,6 +302,24 @@ class Gen:
             src = 'int("%s")' % txt if base is None else 'int("%s", %d)' % (txt, base)
             self.add("parse", src, txt=codes(txt), base=b)
 
+    def parsing_boundaries(self):
+        """int(text[, base]) at the representation boundaries: +-(2^k + d) spelled in several bases, with and without prefix"""
+        def digits(n, base):
+            out = []
+            while n:
+                out.append(n % base)
+                n //= base
+            return list(reversed(out)) or [0]
+        for k in (7, 15, 16, 31, 32, 53, 62, 63, 64, 65, 127, 128):
+            for dlt in (-2, -1, 0, 1, 2):
+                mag = (1 << k) + dlt
+                for sign in ("", "-", "+"):
+                    for base, pre in ((None, ""), (10, ""), (0, "0x"), (16, ""), (16, "0X"), (2, ""), (0, "0b"), (8, ""), (0, "0o"), (36, ""), (7, "")):
+                        digbase = {"0x": 16, "0X": 16, "0b": 2, "0o": 8}.get(pre, base or 10)
+                        txt = sign + pre + self.text_of(digits(mag, digbase), (k + dlt) % 2 == 0)
+                        src = 'int("%s")' % txt if base is None else 'int("%s", %d)' % (txt, base)
+                        self.add("parse", src, txt=codes(txt), base=10 if base is None else base)
+
     def formatting(self):
         rnd = self.rnd
         forms = [("str", "str(%s)"), ("repr", "repr(%s)"), ("d", '"%%d" %% %s'), ("s", '"%%s" %% %s'), ("x", '"%%x" %% %s'),
@@ -577,7 +595,7 @@ class Gen:
             self.add("repeat", src, ty=ty, s=s, n=big(n))
 
     def all(self):
-        for g in (self.arith, self.compare, self.literals, self.parsing, self.formatting, self.conversions,
+        for g in (self.arith, self.compare, self.literals, self.parsing, self.parsing_boundaries, self.formatting, self.conversions,
                   self.mathfns, self.mixed, self.dict_keys, self.ranges, self.enumerate_, self.repeats):
             g()
         self.fixed()
